@@ -67,3 +67,44 @@ func Bad_E6Rglobal_cache(id string, v any) any {
 	e6Cache.Store(id, v)
 	return v
 }
+
+// the seeded C20 shape: filtering in place into the caller's slice
+func Bad_E6Rparamslice_reslice(keys ...string) []string {
+	valid := keys[:0]
+	for _, k := range keys {
+		if k != "" {
+			valid = append(valid, k)
+		}
+	}
+	return valid
+}
+
+func Good_E6Rparamslice_fresh(keys ...string) []string {
+	var valid []string
+	for _, k := range keys {
+		if k != "" {
+			valid = append(valid, k)
+		}
+	}
+	return valid
+}
+
+// the seeded C17 shape: a per-request append into a slice hoisted out of the handler
+func Bad_E6Rclosureshared_hoisted(params ...string) func(string) []string {
+	base := make([]string, 0, len(params)+1)
+	base = append(base, params...)
+	return func(extra string) []string {
+		opts := base
+		opts = append(opts, extra)
+		return opts
+	}
+}
+
+func Good_E6Rclosureshared_local(params ...string) func(string) []string {
+	return func(extra string) []string {
+		opts := make([]string, len(params))
+		copy(opts, params)
+		opts = append(opts, extra)
+		return opts
+	}
+}
